@@ -333,4 +333,140 @@ def rule_decl_filter_paths(db: ProgramDB) -> List[Instance]:
                     f"every path with a supplied domain passes an isinstance(…, {p0}) test before the variable is built" if ok else
                     f"a supplied domain can reach the variable without any isinstance(…, {p0}) test (e.g. a single object given "
                     f"as the domain): the variable then ranges over an object of another type: " + " ".join(cfg.describe_path(p)[-3:])))
+
+    # --- a domain given as an expression (a variable, an attribute / flatten of one, a sub-query): its values exist only
+    # once it is evaluated, so (1) it must reach the variable untouched - in particular not through the filter for plain
+    # iterables, a Variable is iterable but over bindings - and (2) the variable filters the values by its type when it
+    # evaluates the expression.
+    from ..abseval import TRUE
+
+    def hook_expr(c, st, ev):
+        if dotted(c.func) == "isinstance" and len(c.args) == 2 and unparse(c.args[1]).endswith("SymbolicExpression"):
+            return TRUE
+        return None
+
+    def assigns_domain(n) -> bool:
+        a = n.ast
+        return n.kind == "stmt" and isinstance(a, ast.Assign) and any(isinstance(t, ast.Name) and t.id == dparam for t in a.targets)
+    ev2 = AbsEval(db, fn, cfg, call_hook=hook_expr)
+    p2 = ev2.explore([(cfg.entry, State({dparam: ("obj", "truthy")}))], assigns_domain, blocked=builds_variable, kinds=("n",))
+    ok2 = p2 is None
+    out.append(inst("DECL-FILTER", HOLDS if ok2 else VIOLATION, fn, "extract_selected_variable_and_expression[an expression domain reaches the variable untouched]",
+                    "a domain that is an expression is recognised before the arm for plain iterables and handed to the variable as it is" if ok2 else
+                    "a domain that is an expression can be replaced on the way to the variable (a Variable is iterable, but over "
+                    "bindings: filtering it like a collection of objects drops everything): " + " ".join(cfg.describe_path(p2)[-2:])))
+    upd = var_cls.lookup("_update_domain_")
+    if upd is None:
+        raise AnalysisError("Variable._update_domain_ not found")
+    ucfg = CFG(upd)
+    dp = upd.positional_params[1] if len(upd.positional_params) > 1 else "domain"
+
+    def hook_upd(c, st, ev):
+        if dotted(c.func) == "isinstance" and len(c.args) == 2:
+            if unparse(c.args[1]).endswith("SymbolicExpression"):
+                return TRUE
+            if unparse(c.args[0]) == "self._type_" and unparse(c.args[1]) == "type":
+                return TRUE
+            if unparse(c.args[1]).endswith("HashedIterable"):
+                return FALSE
+        return None
+
+    def stores(n) -> bool:
+        return n.ast is not None and n.kind == "stmt" and any(isinstance(c, ast.Call) and call_attr(c) == "set_iterable" for c in ast.walk(n.ast))
+
+    def filters_by_type(n) -> bool:
+        if n.ast is None or n.kind != "stmt":
+            return False
+        for c in ast.walk(n.ast):
+            if isinstance(c, ast.Call) and dotted(c.func) == "isinstance" and len(c.args) == 2 and unparse(c.args[1]) == "self._type_":
+                # lazily: inside a lambda handed to filter() or the condition of a generator expression
+                return True
+        return False
+    if not any(stores(n) for n in ucfg.nodes):
+        raise AnalysisError("Variable._update_domain_: no set_iterable(...) call found")
+    ev3 = AbsEval(db, upd, ucfg, call_hook=hook_upd)
+    p3 = ev3.explore([(ucfg.entry, State({dp: ("obj", "truthy")}))], stores, blocked=filters_by_type, kinds=("n",))
+    ok3 = p3 is None
+    out.append(inst("DECL-FILTER", HOLDS if ok3 else VIOLATION, upd, "Variable._update_domain_[values of an expression domain are type-filtered]",
+                    "the values an expression domain produces are filtered by isinstance(…, self._type_) before they become the domain" if ok3 else
+                    "the values of a domain given as an expression (T(From(flatten(w.items))), T(From(other_variable))) become the "
+                    "domain without an isinstance(…, self._type_) test: members of other types range over the variable"))
+    return out
+
+
+# ---------------------------------------------------------------------------------- DOMAIN-PRESENCE
+def rule_domain_presence(db: ProgramDB) -> List[Instance]:
+    """Whether a domain was supplied is decided by identity with None, never by the truthiness of the user's object: a
+    supplied domain that happens to be falsy (an empty collection, a single object that defines __len__ / __bool__) is
+    still the domain, and must not silently turn into 'no domain given' (= every instance ever constructed)."""
+    out = []
+    from_cls = db.cls("From")
+    dom_field = "domain"
+    if from_cls.field(dom_field) is None:
+        raise AnalysisError("From has no field `domain`")
+    let = db.fn("entity:let")
+    carriers: List[Tuple[FuncInfo, str]] = []
+    if "domain" not in let.params:
+        raise AnalysisError("entity.let has no parameter `domain`")
+    carriers.append((let, "domain"))
+
+    def is_from_domain(e: ast.AST) -> bool:
+        return isinstance(e, ast.Attribute) and e.attr == dom_field and ("domain" in unparse(e.value).lower() or "source" in unparse(e.value).lower())
+    # functions that are directly handed `<From>.domain`
+    for f in db.all_functions():
+        for c in own_calls(f):
+            for i, a in enumerate(c.args):
+                if is_from_domain(a):
+                    tgt = None
+                    if isinstance(c.func, ast.Attribute) and isinstance(c.func.value, ast.Name) and c.func.value.id == "self" and f.cls:
+                        tgt = f.cls.lookup(c.func.attr)
+                    else:
+                        t = resolve_call_target(db, f, c)
+                        tgt = t if isinstance(t, FuncInfo) else None
+                    if tgt is not None:
+                        ps = [p for p, kw in fn_params(tgt) if not kw]
+                        if i < len(ps) and (tgt, ps[i]) not in carriers:
+                            carriers.append((tgt, ps[i]))
+
+    def truth_uses(f: FuncInfo, name: str):
+        def is_c(e):
+            return isinstance(e, ast.Name) and e.id == name
+        for n in own_nodes(f.node):
+            tests = []
+            if isinstance(n, (ast.If, ast.While, ast.IfExp)):
+                tests.append(n.test)
+            if isinstance(n, ast.Assert):
+                tests.append(n.test)
+            for t in tests:
+                stack = [t]
+                while stack:
+                    e = stack.pop()
+                    if is_c(e):
+                        yield n, e
+                    elif isinstance(e, ast.BoolOp):
+                        stack.extend(e.values)
+                    elif isinstance(e, ast.UnaryOp) and isinstance(e.op, ast.Not):
+                        stack.append(e.operand)
+            if isinstance(n, ast.BoolOp) and not any(n is x for x in []):
+                # value position `a or b`: every operand but the last is tested for truth
+                for v in n.values[:-1]:
+                    if is_c(v):
+                        yield n, v
+    seen = set()
+    for f, pname in carriers:
+        uses = []
+        for n, e in truth_uses(f, pname):
+            if id(e) not in seen:
+                seen.add(id(e))
+                uses.append(n)
+        none_tests = [n for n in own_nodes(f.node) if isinstance(n, ast.Compare) and isinstance(n.left, ast.Name) and n.left.id == pname
+                      and len(n.ops) == 1 and isinstance(n.ops[0], (ast.Is, ast.IsNot)) and isinstance(n.comparators[0], ast.Constant)
+                      and n.comparators[0].value is None]
+        ok = not uses
+        out.append(inst("DOMAIN-PRESENCE", HOLDS if ok else VIOLATION, f, f"{f.short}[presence of `{pname}`]",
+                        (f"`{pname}` (the user's domain object) is never tested for truth; presence is decided by "
+                         f"{len(none_tests)} identity test(s) with None") if ok else
+                        f"`{unparse(uses[0] if not isinstance(uses[0], (ast.If, ast.While)) else uses[0].test)[:70]}` tests the user's domain object for truth: "
+                        f"an empty collection or a falsy single object given as the domain counts as 'no domain', and the variable "
+                        f"ranges over every instance ever constructed instead", line=getattr(uses[0], "lineno", f.lineno) if uses else f.lineno))
     return out
